@@ -18,6 +18,11 @@ def check(ctx):
     from . import ohs
 
     ohs.one_hot_switch_dynamic(ctx, "C09")
+    # the order the manager hands to a scheduler is what keeps the run network acyclic (a run may only depend on the runs of
+    # transactions earlier in it): a scheduler that never reads it can close a combinational loop (F41)
+    from . import core9
+
+    core9.scheduler_consults_order(ctx, "C09")
 
 
 MUTANTS = [
